@@ -484,6 +484,17 @@ def opPRepeats : P String := do
   let ws ← pMany n pFloat
   pure (join ((Sgd.parametricRepeats floatT ws ne).map toString))
 
+/-- `initupdate <nOrig> <dim> <nRows> <k> init(nRows*dim) indices(nRows*k)` → the new rows after init_update -/
+def opInitUpdate : P String := do
+  let nOrig ← pNat; let dim ← pNat; let nRows ← pNat; let k ← pNat
+  let init ← pMat nRows dim pFloat
+  let idx ← pMat nRows k pNat
+  let orig := fun j => init.getD j []
+  let out := (List.range (nRows - nOrig)).map (fun t =>
+    let i := nOrig + t
+    Pipeline.initUpdateRow nOrig dim orig (init.getD i []) (idx.getD i []))
+  pure (join (out.flatten.map fb))
+
 def dispatch (op : String) : P String :=
   match op with
   | "knn" => opKnn
@@ -496,6 +507,7 @@ def dispatch (op : String) : P String :=
   | "smetric" => opSMetric
   | "grad" => opGrad
   | "heap" => opHeap
+  | "initupdate" => opInitUpdate
   | "prepeats" => opPRepeats
   | "radii" => opRadii
   | "densflag" => opDensFlag
